@@ -154,7 +154,10 @@ def c04_history(e1: int, p1: int, g1: int, e2: int, p2: int, h1: int, h2: int, s
             sc.gap(g1)
             sc.apply(EVENTS[e1], p1)
             if S.get('K', 1) >= 2:
-                sc.gap(3)
+                if EVENTS[e1] != scen.EV_KILLCMD:
+                    sc.gap(3)
+                else:
+                    w.run_for(0.05)          # the kill request is still waiting on its workers
                 sc.wname = 'a'
                 sc.apply(EVENTS[e2], p2)
             w.quiesce()
@@ -286,6 +289,7 @@ def plan(tier):
             sh.append({'e1': e, 'K': 1, 'n0': 1, 'beh': 0, 'hmax': 5, 'hook': hook, 'sfmax': 1 if q else 3})
             sh.append({'e1': e, 'K': 1, 'n0': 1, 'beh': 2, 'hmax': 5, 'hook': hook})
     sh.append({'e1': 2, 'K': 1, 'n0': 1, 'beh': 2, 'single': True})
+    sh.append({'e1': 9, 'K': 2, 'n0': 2, 'beh': 2})           # a kill request in its grace period, then any second event
     sh.append({'e1': 2, 'K': 1, 'n0': 2, 'beh': 2, 'single': True, 'dmax': 12})
     step = [{'e': e, 'dmax': 6 if q else 16, 'beh': 0} for e in range(len(EVENTS))]
     return [
